@@ -18,8 +18,6 @@ TECH = {
 }
 NOTES = {}
 NA = {
-    "C09": "RenderTree text is a function of runtime tree shape; every candidate rule is a frozen source fragment "
-           "(see DESIGN.md section 4, C09); the identity-only clause for render.py is checked under C17",
 }
 
 
